@@ -115,7 +115,7 @@ def selftest():
     miss = any(d[0] == "Error" and d[1] in ("SPC_BEFORE_NL",) and d[2] == 4 for d in R.diags)
     if not hit or miss:
         raise core.HarnessError("C02 self-test failed")
-    ids = set(operators.OPS)
+    ids = {k for k, o in operators.OPS.items() if not o.get("aux")}
     if len(ids) < 80:
         raise core.HarnessError("operator catalogue shrank: %d" % len(ids))
 
@@ -132,8 +132,8 @@ def run(pid, tier, seed):
         for k, what in replay(pid, rc["case"]):
             camp.fail(k, what, rc["case"])
     camp.merge(core.run_shards(shard, [dict(seed=core.seed_of(seed, s, 2), n=n, per_class=per_class) for s in range(shards)]))
-    never = sorted(o for o in operators.OPS if not camp.counters.get("op:" + o))
-    camp.extra["operators_in_catalogue"] = len(operators.OPS)
+    never = sorted(k for k, o in operators.OPS.items() if not o.get("aux") and not camp.counters.get("op:" + k))
+    camp.extra["operators_in_catalogue"] = sum(1 for o in operators.OPS.values() if not o.get("aux"))
     camp.extra["operators_never_applicable_in_this_run"] = never
     camp.extra["distinct_operator_site_classes_hit"] = sum(1 for k in camp.counters if k.startswith("hit:"))
     if tier == "thorough" and never:
